@@ -44,8 +44,15 @@ var classNames = []string{"any", "whitespace", "digit", "upper", "lower", "lette
 var anchorNames = []string{"file start", "file end", "line start", "line end", "word start", "word end"}
 var wholeNames = []string{"whole file", "whole line", "whole word"}
 
+// keyword-like beginnings of identifiers: `orv3`, `endL2`, `inv1` are identifiers,
+// not a keyword followed by something
+var keywordPrefixes = []string{"or", "in", "not", "end", "to", "any", "find", "set", "with", "if", "then", "else", "loop", "true", "false", "digit", "top", "last", "all", "at", "maybe", "named", "fewest", "line", "file", "word", "whole", "start", "is", "function", "return", "Match", "begin"}
+
 func (g *gctx) name(prefix string) string {
 	g.nameN++
+	if rapid.IntRange(0, 3).Draw(g.t, "kwname") == 0 {
+		prefix = rapid.SampledFrom(keywordPrefixes).Draw(g.t, "kwprefix") + prefix
+	}
 	return fmt.Sprintf("%s%d", prefix, g.nameN)
 }
 
